@@ -1,6 +1,6 @@
 """C18 - connections spread over all resolved and mapped addresses, race-free (spec/dial)."""
 import json, os
-from . import core
+from . import core, acmd
 from .main import report_rejections, report_races
 
 
@@ -49,4 +49,6 @@ def run(ctx):
     ctx.assumptions += ["an in-process DNS server (miekg/dns) is installed as net.DefaultResolver; dials are recorded and refused, no connection is made",
                         "'keeps being used': every resolved address is dialled in the first 300 attempts and again in the next 300 (false alarm < 1e-12)",
                         "contract clauses on address choice are asserted for the documented option order only; the reversed order is checked for races"]
+    # the command-line anchor of this property: the attack command end to end against a loopback server (spec/cli/AttackCmd.tla)
+    acmd.run_part(ctx)
     return "model_checking"
